@@ -131,12 +131,29 @@ let run_reflex () =
   done with End_of_file -> ());
   print_string (Buffer.contents out)
 
+(* C15: one pair "hexA hexB" per line (an empty part is written "-") *)
+let run_compose d sep =
+  let out = Buffer.create (1 lsl 16) in
+  let i = ref 0 in
+  (try while true do
+    let line = String.trim (input_line stdin) in
+    (match split line with
+     | [a; b] ->
+       let dec h = if h = "-" then [] else decode_utf8 (string_of_hex h) in
+       let r = compose_check { dbg = d; msep = sep } (dec a) (dec b) in
+       Printf.bprintf out "CASE %d %s\n" !i (match r with None -> "notclosed" | Some true -> "holds" | Some false -> "fails")
+     | _ -> Printf.bprintf out "CASE %d bad\n" !i);
+    incr i
+  done with End_of_file -> ());
+  print_string (Buffer.contents out)
+
 let () =
   let mode = if Array.length Sys.argv > 1 then Sys.argv.(1) else "" in
   let d = not (Array.length Sys.argv > 2 && Sys.argv.(2) = "release") in
   match mode with
   | "buf" -> run_buf d
   | "reflex" -> run_reflex ()
+  | "compose" -> run_compose d (Array.length Sys.argv > 3 && Sys.argv.(3) = "sep")
   | "lex" -> run_lex d (Array.length Sys.argv > 3 && Sys.argv.(3) = "sep") false
   | "lexa" -> run_lex d (Array.length Sys.argv > 3 && Sys.argv.(3) = "sep") true
   | _ -> prerr_endline "usage: modelrun buf|lex|lexa [debug|release] [sep]"; exit 2
